@@ -47,7 +47,7 @@ Definition rc_extend (ks : list K) (rc : refcount) : refcount :=
 Definition rc_remove (k : K) (rc : refcount) : option refcount :=
   match aget eqb k rc with
   | None => None
-  | Some n => if 1 <? n then Some (aset eqb k (n - 1) rc) else Some (adel eqb k rc)
+  | Some n => if 1 <? n then Some (aset eqb k (n - 1) rc) else Some (adrop eqb k rc)
   end.
 
 Definition rc_remove_if (k : K) (rc : refcount) : refcount :=
@@ -123,21 +123,19 @@ Definition register (t : task) (m : mgr) : res mgr :=
   if m_frozen m then Err EFrozen else Ok (register_nofreeze t m).
 
 (* ---- unregister ------------------------------------------------------------ *)
+(* if v in d[k]: d[k].remove(v)       (d[k] is a defaultdict read) *)
+Definition idec (k v : K) (d : index) : index :=
+  let '(rc, d') := iget k d in
+  if rc_mem v rc then aset eqb k (rc_remove_if v rc) d' else d'.
+
 Definition unreg_dep (tid : K) (targets : list K) (m : mgr) (dep : K) : mgr :=
   (* for target in task.targets: if target in self.rdeps[dep]: self.rdeps[dep].remove(target) *)
-  let rd := fold_left (fun rd target =>
-                         let '(rc, rd') := iget dep rd in
-                         if rc_mem target rc then aset eqb dep (rc_remove_if target rc) rd' else rd')
-                      targets (m_rdeps m) in
+  let rd := fold_left (fun rd target => idec dep target rd) targets (m_rdeps m) in
   (* for deptask in self.tartasks[dep]: if taskid in self.rtasks[deptask]: self.rtasks[deptask].remove(taskid) *)
   let '(tks, tart) := iget dep (m_tartasks m) in
-  let rt := fold_left (fun rt deptask =>
-                         let '(rc, rt') := iget deptask rt in
-                         if rc_mem tid rc then aset eqb deptask (rc_remove_if tid rc) rt' else rt')
-                      (rc_keys tks) (m_rtasks m) in
+  let rt := fold_left (fun rt deptask => idec deptask tid rt) (rc_keys tks) (m_rtasks m) in
   (* if taskid in self.deptasks[dep]: self.deptasks[dep].remove(taskid) *)
-  let '(rc, dt) := iget dep (m_deptasks m) in
-  let dt' := if rc_mem tid rc then aset eqb dep (rc_remove_if tid rc) dt else dt in
+  let dt' := idec dep tid (m_deptasks m) in
   mkMgr (m_tasks m) rd rt dt' tart (m_frozen m).
 
 (* for tar in task.targets: self.tartasks[tar].remove(taskid)   -- KeyError when absent *)
@@ -161,7 +159,7 @@ Definition unregister (tid : K) (m : mgr) : res mgr :=
       match unreg_tars tid (t_targets t) (m_tartasks m1) with
       | None => Err EKey
       | Some tart =>
-          Ok (mkMgr (adel eqb tid (m_tasks m1)) (m_rdeps m1) (adel eqb tid (m_rtasks m1))
+          Ok (mkMgr (adrop eqb tid (m_tasks m1)) (m_rdeps m1) (adrop eqb tid (m_rtasks m1))
                     (m_deptasks m1) tart (m_frozen m1))
       end
   end.
